@@ -13,7 +13,7 @@ from vp import core
 from vp import storemodel as SM
 
 DOCUMENTED = ["none", "links_only", "full"]
-TAGS = ["str_ascii", "str_empty", "str_nonascii", "bytes_plain", "bytes_empty", "none", "int", "nested", "obj", "frame0"]
+TAGS = ["str_ascii", "str_empty", "str_nonascii", "str_bom", "bytes_plain", "bytes_empty", "none", "int", "nested", "obj", "frame0"]
 
 
 def produce_a(tag):
@@ -364,7 +364,7 @@ def run(tier, seed):
                 seq.append((paths[1], "b", tags[1]))
                 seq.append((paths[0], "a", tags[0]))
                 jobs.append(("commit", ("full" if c == "default" else c, sp, seq, DIR_NAMES[len(jobs) % len(DIR_NAMES)])))
-    for tag, kind in (("str_ascii", "str"), ("str_nonascii", "str"), ("str_empty", "str"), ("bytes_plain", "bytes"), ("bytes_empty", "bytes"), ("bytes_all", "bytes"),
+    for tag, kind in (("str_ascii", "str"), ("str_nonascii", "str"), ("str_empty", "str"), ("str_bom", "str"), ("str_newlines", "str"), ("bytes_plain", "bytes"), ("bytes_empty", "bytes"), ("bytes_all", "bytes"),
                       ("none", "pickle"), ("int", "pickle"), ("nested", "pickle"), ("obj", "pickle")):
         jobs.append(("legacy", (tag, kind)))
 
